@@ -53,8 +53,9 @@ def unsyncable(b):
     return False
 
 
-def behaviours(run, consts, depth, allow_panic=False, extra_inv="", cap=None, must_contain=None):
-    """TLC explores Scen.tla; returns behaviours deduplicated by their environment-action sequence"""
+def behaviours(run, consts, depth, allow_panic=False, extra_inv="", cap=None, must_contain=None, simulate=None):
+    """TLC explores Scen.tla (exhaustively, or - simulate=N - along N random behaviours); returns behaviours deduplicated by
+    their environment-action sequence"""
     c = dict(consts)
     c["Depth"] = str(depth)
     c["AllowPanic"] = "TRUE" if allow_panic else "FALSE"
@@ -63,7 +64,10 @@ def behaviours(run, consts, depth, allow_panic=False, extra_inv="", cap=None, mu
     c.setdefault("AllowSilent", "FALSE")
     c.setdefault("AllowTimeout", "FALSE")
     body = "SPECIFICATION SSpec\nINVARIANTS Emit %s\nCHECK_DEADLOCK FALSE\n" % extra_inv
-    res = run.tlc("Scen", cfg(c, body), workers=8, timeout=3000)
+    if simulate:
+        res = run.tlc("Scen", cfg(c, body), workers=1, timeout=3000, simulate="num=%d" % simulate, depth=40 * depth, extra=["-seed", str(run.seed)])
+    else:
+        res = run.tlc("Scen", cfg(c, body), workers=8, timeout=3000)
     if res.violations:
         raise vlib.Infra("scenario model violates %s (model-only)" % res.violations[0]["name"])
     seen, out = set(), []
